@@ -5,6 +5,7 @@ package main
 // table; requests are then dispatched over it following mux's documented matching rules.
 
 import (
+	"net/url"
 	"context"
 	"errors"
 	"log"
@@ -165,7 +166,13 @@ func vpPromHandler() http.Handler { return vpMarkerHandler{"metrics"} }
 func vpOIDCNewProvider(ctx context.Context, issuer string) (*oidc.Provider, error) {
 	return &oidc.Provider{}, nil
 }
-func vpOIDCVerifier(p *oidc.Provider, c *oidc.Config) *oidc.IDTokenVerifier { return nil }
+// the verifier's configuration is what decides how ID tokens are checked: remembered for VP_C13_verifier_config
+var vpOIDCConf *oidc.Config
+
+func vpOIDCVerifier(p *oidc.Provider, c *oidc.Config) *oidc.IDTokenVerifier {
+	vpOIDCConf = c
+	return nil
+}
 func vpOIDCEndpoint(p *oidc.Provider) oauth2.Endpoint                       { return oauth2.Endpoint{} }
 func vpKeytabLoad(path string) (*keytab.Keytab, error)                      { return nil, nil }
 func vpServiceLogger(l *log.Logger) func(*service.Settings)                { return nil }
@@ -420,5 +427,33 @@ func VP_C05_routes() {
 		f := g.RedirectFlags
 		c := vpConf.Caps
 		vpAssert(f.Clipboard == c.EnableClipboard && f.Drive == c.EnableDrive && f.Printer == c.EnablePrinter && f.Port == c.EnablePort && f.Pnp == c.EnablePnp && f.DisableAll == c.DisableRedirect && f.EnableAll == c.RedirectAll, "redirect-policy-copied-field-by-field")
+	}
+}
+
+
+//vp:property C13
+//vp:bounds initOIDC with an arbitrary client id / secret / provider URL of <= 3 bytes each: the configuration the ID-token verifier is built from
+//vp:assume go-oidc's contract: the verifier checks signature (provider keys), issuer, audience = Config.ClientID and expiry against Config.Now (time.Now when nil) unless the Skip*/Insecure* switches are set
+//vp:reach built
+func VP_C13_verifier_config() {
+	vpOIDCConf = nil
+	conf = config.Configuration{}
+	conf.OpenId.ClientId = vpString("client-id", 3)
+	conf.OpenId.ClientSecret = vpString("client-secret", 3)
+	conf.OpenId.ProviderUrl = vpString("provider-url", 3)
+	o := initOIDC(&url.URL{Scheme: "https", Host: "gw.example", Path: "/callback"})
+	vpReach("built")
+	vpAssert(o != nil && vpOIDCConf != nil, "verifier-built-from-a-configuration")
+	if vpOIDCConf == nil {
+		return
+	}
+	c := vpOIDCConf
+	vpAssert(c.ClientID == conf.OpenId.ClientId && !c.SkipClientIDCheck, "id-token-audience-checked-against-the-configured-client-id")
+	vpAssert(!c.SkipExpiryCheck && !c.SkipIssuerCheck && !c.InsecureSkipSignatureCheck, "id-token-signature-issuer-and-expiry-checks-are-on")
+	if c.Now != nil {
+		before := time.Now()
+		got := c.Now()
+		after := time.Now()
+		vpAssert(!got.Before(before) && !got.After(after), "id-token-expiry-is-checked-against-the-current-time")
 	}
 }
